@@ -4,6 +4,7 @@ import (
 	"context"
 	"errors"
 	"io"
+	"math"
 	"path"
 	"time"
 
@@ -235,9 +236,16 @@ func (f *file) Seek(offset int64, whence int) (int64, error) {
 	case io.SeekStart:
 		newOffset = offset
 	case io.SeekCurrent:
+		if offset > 0 && newOffset > math.MaxInt64-offset {
+			return 0, &hackpadfs.PathError{Op: "seek", Path: f.path, Err: hackpadfs.ErrInvalid}
+		}
 		newOffset += offset
 	case io.SeekEnd:
-		newOffset = int64(f.Size()) + offset
+		size := int64(f.Size())
+		if offset > 0 && size > math.MaxInt64-offset {
+			return 0, &hackpadfs.PathError{Op: "seek", Path: f.path, Err: hackpadfs.ErrInvalid}
+		}
+		newOffset = size + offset
 	default:
 		return 0, &hackpadfs.PathError{Op: "seek", Path: f.path, Err: hackpadfs.ErrInvalid}
 	}
